@@ -174,6 +174,99 @@ def explore(ctx, thorough):
     return Wd.fn, bad, n
 
 
+def explore_cues(ctx):
+    """whole-writer scenarios: cue settings read from a WebVTT file are written back verbatim; nodes of one caption with
+    different layouts become separate cues with the same times, each with its own position"""
+    import ast as _ast
+    F = Folder(ctx.index)
+    F.object_classes = "*"
+    bad = {"verbatim": [], "split": []}
+
+    def obj(path, name, **attrs):
+        cls = ctx.index.get_class(path, name)
+        me = Stub(name, {}, cls=cls)
+        init = cls.find_method("__init__")
+        if init is not None:
+            F.call_function(init, [], {}, self_value=me)
+        return cls, me
+    settings = ["line:0 position:20% align:left", "position:10%,line-left align:start size:35%", "vertical:rl line:-1", "region:fred"]
+    n = 0
+    for st in settings:
+        n += 1
+        doc = f"WEBVTT\n\n00:01.000 --> 00:02.000 {st}\nhello\n\n00:03.000 --> 00:04.000\nplain\n"
+        try:
+            rc, r = obj("pycaption/webvtt.py", "WebVTTReader")
+            cs = F.call_function(rc.find_method("read"), [doc], {}, self_value=r)
+            wc, w = obj("pycaption/webvtt.py", "WebVTTWriter")
+            out = F.call_function(wc.find_method("write"), [cs], {}, self_value=w)
+        except FoldRaise as e:
+            bad["verbatim"].append({"settings": st, "raises": f"{e.exc_name}: {e}"[:120]})
+            continue
+        except AnalysisError as e:
+            raise AnalysisError(f"WebVTT read -> write cannot be folded: {e}")
+        lines = [l for l in out.split("\n") if "-->" in l]
+        if len(lines) != 2 or lines[0] != f"00:01.000 --> 00:02.000 {st}" or lines[1] != "00:03.000 --> 00:04.000":
+            bad["verbatim"].append({"settings": st, "timing_lines_written": lines})
+    # splitting by node layout
+    Wd = World(ctx)
+    Wd.F = F
+
+    def ev(text, mod="pycaption.base", **local):
+        return F.eval_in(mod, _ast.parse(text, mode="eval").body, local)
+    la = Wd.layout(((10, "%"), (10, "%")), None, None, "LEFT")
+    lb = Wd.layout(((50, "%"), (80, "%")), None, None, "RIGHT")
+    for label, layouts in (("two layouts", [la, lb]), ("same layout twice", [la, la]), ("three nodes, two layouts", [la, la, lb])):
+        n += 1
+        nodes = []
+        for i, l in enumerate(layouts):
+            if i:
+                nodes.append(ev("CaptionNode.create_break(layout_info=l)", l=l))
+            nodes.append(ev("CaptionNode.create_text(t, layout_info=l)", t=f"part{i}", l=l))
+        cs = ev("CaptionSet({'en-US': CaptionList([Caption(1000000, 2000000, n)])})", n=nodes)
+        try:
+            wc, w = obj("pycaption/webvtt.py", "WebVTTWriter")
+            out = F.call_function(wc.find_method("write"), [cs], {}, self_value=w)
+        except FoldRaise as e:
+            bad["split"].append({"caption": label, "raises": f"{e.exc_name}: {e}"[:120]})
+            continue
+        except AnalysisError as e:
+            raise AnalysisError(f"WebVTTWriter.write cannot be folded on a caption with node layouts: {e}")
+        blocks = [b for b in out.split("\n\n")[1:] if b.strip()]
+        cues = []
+        for b in blocks:
+            ls = b.strip("\n").split("\n")
+            k = 0
+            while k < len(ls):
+                if "-->" in ls[k]:
+                    cues.append([ls[k], []])
+                elif cues:
+                    cues[-1][1].append(ls[k])
+                k += 1
+        groups = []
+        for i, l in enumerate(layouts):
+            if groups and groups[-1][0] is l:
+                groups[-1][1].append(f"part{i}")
+            else:
+                groups.append([l, [f"part{i}"]])
+        want = [("position:10%" if g[0] is la else "position:50%", g[1]) for g in groups]
+        ok = len(cues) == len(want) and all(c[0].startswith("00:01.000 --> 00:02.000") and w_[0] in c[0] and
+                                             [x.strip() for x in c[1] if x.strip()] == w_[1] for c, w_ in zip(cues, want))
+        if not ok:
+            bad["split"].append({"caption": label, "cues_written": cues, "required": want})
+    return F, bad, n
+
+
+def run_cues(ctx, report, rules):
+    F, bad, n = ctx.memo("webvtt_layout_cues", lambda: explore_cues(ctx))
+    fn = ctx.index.get_function(VTT, "WebVTTWriter.write")
+    report.covered(fn)
+    texts = {"verbatim": "cue settings read from a WebVTT file are written back verbatim",
+             "split": "nodes of one caption with different layouts become separate cues with the same times, each with its own position"}
+    for key, (rule, clause) in rules.items():
+        report.check(not bad[key], rule, fn, f"WebVTT writer on {n} whole-document scenarios: {texts[key]}",
+                     {"scenarios": n, "mismatches": bad[key][:2]}, clause)
+
+
 def run(ctx, report, rules):
     thorough = ctx.tier == "thorough"
     fn, bad, n = ctx.memo(("webvtt_layout_fold", thorough), lambda: explore(ctx, thorough))
